@@ -52,3 +52,5 @@ def run(ctx):
     boundaries.check(ctx, 'C10.RB', 'C10')
     boundaries.check_writes(ctx, 'C10.RW', 'C10')
     boundaries.check_calls(ctx, 'C10.RC', 'C10')
+    from .. import errdisc
+    errdisc.check(ctx, 'C10.RD', 'C10', 22)
